@@ -248,7 +248,9 @@ impl Report {
             "wall_s": wall,
             "violations": self.n_unlisted,
         });
-        if !self.replay_mode {
+        // DX_NO_EVIDENCE is set by tools/run_mutant.sh so that runs against a seeded mutant never
+        // overwrite the evidence of the unchanged tree
+        if !self.replay_mode && std::env::var("DX_NO_EVIDENCE").is_err() {
             let dir = root().join("evidence");
             let _ = std::fs::create_dir_all(&dir);
             let p = dir.join(format!("{}.json", self.id));
